@@ -14,7 +14,7 @@ PROP = 'C18'
 LEVEL = 'exploration'
 RULE = ('scan designs (1-2 chains of 1-3 flip-flops, node order shuffled against chain order, optional latch) x EVERY placement of "!" markers in the ScanCells list (2^(len+1)) x '
         'signal-group orders (all permutations of _pi and _po for <= 3 free members, rotations above) x cell-name styles x pattern sets (every load string over {0,1} for one pattern, '
-        'N at each position, every unload string over {L,H} plus X at each position, two-pattern sets, three-pattern sets with a don\'t-care pattern first / in the middle, launch/capture calls with and without clock pulses); '
+        'N at each position, every unload string over {L,H} plus X at each position, two-pattern sets, three-pattern sets with a don\'t-care pattern first / in the middle, launch/capture calls with and without clock pulses, launch calls with output values of their own); '
         'distinct_nontrivial = distinct (design, STIL text) pairs whose expected arrays contain both 0 and 1')
 ASSUMPTIONS = ['row order of all returned arrays = circuit.s_nodes (ports, flip-flops, latches)',
                'load/unload character k belongs to the k-th scan cell counted from scan-out; load inversion = parity of markers between scan-in and the cell, unload inversion = parity between the cell and scan-out',
@@ -128,7 +128,10 @@ def render_stil(design, markers, pi_order, po_order, patterns, name_style='plain
         out.append('   }')
         if p.get('launch_pi') is not None:
             ln, cn = [('allclock_launch', 'allclock_capture'), ('multiclock_launch', 'allclock_launch_capture'), ('x_launch', 'y_launch_z_capture')][callnames % 3]
-            out.append(f'   Call "{ln}" {{\n      "_pi"={wrap(p["launch_pi"])}; }}')
+            if p.get('launch_po') is not None:      # the launch cycle may list (strobe) the outputs as well; responses are those of the capture cycle
+                out.append(f'   Call "{ln}" {{\n      "_pi"={wrap(p["launch_pi"])}; "_po"={wrap(p["launch_po"])}; }}')
+            else:
+                out.append(f'   Call "{ln}" {{\n      "_pi"={wrap(p["launch_pi"])}; }}')
             out.append(f'   Call "{cn}" {{\n      "_pi"={wrap(p["capture_pi"])}; "_po"={wrap(p["capture_po"])}; }}')
         else:
             cn = ['multiclock_capture', 'allclock_capture', 'allclock_launch_capture', 'one_launch_two_capture'][callnames % 4]
@@ -382,6 +385,9 @@ def run_design(res, d, tier, seed, shard=0, nshards=1):
                 q = dict(q)
                 q['launch_pi'] = ''.join('P' if n == 'clk' else ('0' if n == 'se' else '01'[(j + bits) % 2]) for j, n in enumerate(d.pis))
                 q['capture_pi'] = ''.join('P' if n == 'clk' else ('0' if n == 'se' else '01'[(j + bits + 1) % 2]) for j, n in enumerate(d.pis))
+                if bits != 1:      # launch calls that list output values of their own (the complement of the capture cycle's)
+                    q['launch_po'] = ''.join({'H': 'L', 'L': 'H'}.get(ch_, ch_) for ch_ in q['capture_po'])
+                    res.count('loc_launch_with_po')
                 lp.append(q)
             stil_case(res, dict(case(markers, d.pis, d.pos, lp, loc=True), layout=layout))
             res.count('layout_' + layout)
@@ -461,7 +467,7 @@ def finish(agg, tier):
     if not agg.counters.get('second_circuit_cases'): raise common.HarnessError('vacuity guard: no second circuit with another order')
     if not agg.counters.get('loc_init_filter_cases'): raise common.HarnessError('vacuity guard: init_filter never exercised')
     if not agg.counters.get('loc_single_cycle_patterns'): raise common.HarnessError('vacuity guard: no single-cycle pattern in a launch-on-capture set')
-    need = ['cases', 'cases_with_markers', 'tests_cases', 'loc_cases']
+    need = ['cases', 'cases_with_markers', 'tests_cases', 'loc_cases', 'loc_launch_with_po']
     missing = [k for k in need if not agg.counters.get(k)]
     if missing: raise common.HarnessError(f'vacuity guard: {missing} zero')
     return {}
